@@ -209,6 +209,19 @@ def correspondence(ctx):
                     'chunking': p.ctag, 'declared': p.img.declared, 'implementation': v}, 6)
     out = G.run_pairs(ctx, pairs, on)
     ctx.notes.append('model cost units spent: %d' % spent)
+    # sparse streams (driver request inspx: zero gaps are skipped by the model, Props/C01Locality): metadata regions
+    # at and beyond 4 GiB, and every format followed by more than 4 GiB of zeros
+    cases = []
+    for sp in G.far_images(rng, ctx.quick) + G.sparse_generic(rng):
+        for plan in G.far_plans(sp):
+            if ctx.quick and plan.startswith('extents1') and sp.fmt == 'vhdx':
+                continue                      # thousands of chunks against 64 KiB regions: thorough only
+            cases.append((sp, plan))
+
+    def on_sparse(sp, plan, impl):
+        vs = G.vfield(impl.split('\t')[-1], 'vsize')
+        ctx.count('vsize/%s/sparse/%s' % (sp.fmt, 'declared' if vs == str(sp.declared) else 'other'))
+    out += G.sparse_pairs(ctx, cases, on_sparse)
     return out
 
 
@@ -343,38 +356,36 @@ def check_illformed(ctx, img, fam, fails):
     return False
 
 
+def check_sparse(ctx, sp, plans, fails, expected):
+    """virtual_size of a sparse stream equals the declared size under each named chunk plan"""
+    for k, tag in enumerate(plans):
+        cuts = sp.plan(tag)
+        ctx.evaluations += 1
+        ctx.count('search/sparse/%s/%s' % (sp.tag, tag.split('@')[0]))
+        q = insp_impl.poke if k == 0 else None
+        v, _ = G.sparse_run(sp, cuts, q, ctor=ctx.rng.choice(G.ctor_variants(sp.fmt)) if k == 1 else None)
+        got = G.vfield(v, 'vsize')
+        if got != str(expected):
+            mo = sp.params.get('meta_off')
+            case = dict(sp.case(tag), wellformed=True, expected=str(expected), poll='all' if q else None)
+            fails.append(Failure(case, {
+                'kind': 'virtual-size-is-not-the-declared-size',
+                'what': '%s: virtual_size is %s, the image declares %s (well-formed, %s%d-byte sparse stream, %d chunks "%s"; verdict %s)'
+                        % (sp.fmt, got, expected, 'metadata region at file offset %d = 2^32%+d, ' % (mo, mo - (1 << 32))
+                           if (sp.fmt == 'vhdx' and isinstance(mo, int)) else '', sp.total, len(cuts) + 1, tag, v)}))
+            return True
+    return False
+
+
 def far_layouts(ctx, rng, fails, full):
-    """admissible layouts whose metadata region lies at or beyond 4 GiB (the region-table offset is 64 bit).  The
-    streams are sparse: the zero filler is one shared chunk object, so several GiB cost milliseconds.  A handful
-    of chunkings each: every structure as its own chunk, 16 MiB and 1 MiB grids, a cut right before / after the
-    metadata region; observers polled on one of them."""
-    G32 = 1 << 32
-    M = 1 << 20
-    offs = [G32, G32 + M, G32 - M, G32 + M * rng.randrange(2, 3 * 4096)]
-    if full or not ctx.quick:
-        offs += [2 * G32, 2 * G32 + 7 * M, G32 + 5 * M, 1 << 36, (1 << 36) + M * rng.randrange(1, 1 << 16), 1 << 40]
-    for mo in offs:
-        size = rng.choice(EDGE64 + [rng.getrandbits(64), rng.getrandbits(40)])
-        nmeta = rng.choice([1, 5, 40])
-        stale = rng.getrandbits(40) if (mo % G32 >= 320 * G.K and rng.random() < 0.6) else None
-        sp = G.vhdx_far(size, mo, nmeta=nmeta, vidx=rng.randrange(nmeta), tail=rng.choice([0, 1, 5000]), stale=stale,
-                        item_off=rng.choice([None, G.K64]))
-        plans = ['extents', 'grid%d' % (16 << 20)] + (['grid%d' % M] if sp.total <= 8 * G32 else [])
-        plans += ['cut@%d' % (mo - 1), 'cut@%d' % (mo + 1)]
-        for k, tag in enumerate(plans):
-            cuts = sp.plan(tag)
-            ctx.evaluations += 1
-            ctx.count('search/far-layout/' + tag.split('@')[0])
-            q = insp_impl.poke if k == 0 else None
-            v, _ = G.sparse_run(sp, cuts, q, ctor=rng.choice(G.ctor_variants('vhdx')) if k == 1 else None)
-            got = G.vfield(v, 'vsize')
-            if got != str(size):
-                case = dict(sp.case(tag), wellformed=True, expected=str(size), poll='all' if q else None)
-                fails.append(Failure(case, {
-                    'kind': 'virtual-size-is-not-the-declared-size',
-                    'what': 'vhdx: virtual_size is %s, the image declares %s (well-formed, metadata region at file offset %d = 2^32%+d, '
-                            '%d-byte sparse stream, %d chunks "%s"; verdict %s)' % (got, size, mo, mo - G32, sp.total, len(cuts) + 1, tag, v)}))
-                break
+    """admissible layouts whose metadata region lies at or beyond 4 GiB (the region-table offset is 64 bit), and
+    every format followed by more than 4 GiB (stream-length based sizes beyond 2^32).  The streams are sparse: the
+    zero filler is one shared chunk object, so several GiB cost milliseconds.  A handful of chunk plans each: every
+    structure as its own chunk with the gaps in 16 MiB / 1 MiB pieces, plain 16 MiB grid, a cut right before /
+    after the metadata region; observers polled on one of them."""
+    for sp in G.far_images(rng, ctx.quick, full) + G.sparse_generic(rng):
+        plans = G.far_plans(sp) + ['grid%d' % (16 << 20)]
+        check_sparse(ctx, sp, plans, fails, sp.declared)
         if len(fails) >= 3:
             return
 
@@ -383,6 +394,11 @@ def search(ctx, seeds, full=False):
     rng = ctx.rng
     fails = []
     ctx._c07_full = full
+    for s in [s for s in seeds if s.get('kind') == 'sparse' and s.get('expected') is not None][:10]:
+        sp, _ = G.sparse_of_case(s)
+        check_sparse(ctx, sp, [s['plan']] + [p for p in G.far_plans(sp) if p != s['plan']], fails, s['expected'])
+        if len(fails) >= 5:
+            return fails
     for s in [s for s in seeds if s.get('kind') in ('insp', 'wrap') and 'content' in s][:40]:
         # a disagreeing case carries no declared size: look for chunk-dependence of virtual_size on its bytes
         data = G.decode_content(s['content'])
@@ -496,7 +512,7 @@ def replay(ctx, payload):
         print('%s, sparse stream of %d bytes, non-zero extents at %s, chunk plan "%s" (%d chunks), layout %s'
               % (sp.fmt, sp.total, [o for o, _ in sp.extents], case['plan'], len(cuts) + 1, sp.params))
         print('  implementation:', v)
-        print('  model         : (not run: the driver materialises its input, %d bytes do not fit)' % sp.total)
+        print('  model         :', ctx.driver.ask(G.inspx_line(sp, cuts, False)).split('\t')[-1])
         got = G.vfield(v, 'vsize')
         print('property oracle on the implementation: virtual_size %s, the image declares %s' % (got, case['expected']))
         return 1 if got != case['expected'] else 0
